@@ -33,3 +33,6 @@ func VDumpResolver(r resolver.Resolver) string {
 func VConsistentResolver(r resolver.Resolver) bool {
 	return discov.VConsistentSubscriber(r.(*discovResolver).sub)
 }
+
+// VResolverValues calls Values() of the Subscriber a discovResolver holds.
+func VResolverValues(r resolver.Resolver) []string { return r.(*discovResolver).sub.Values() }
